@@ -31,6 +31,14 @@ NOT_APPLICABLE = {
 
 PROPS = {
     "S00": {"quick_runs": 2000, "thorough_runs": 20000, "seed": 100001, "claimed": False},
+    "C01": {
+        "quick_runs": 5000, "thorough_runs": 300000, "seed": 1000001,
+        "rule": "C01 programs: task forests of 5-200 nodes; per node a submission API (start_detached(schedule|then), execute, "
+                "detached pika::thread, register_work, register_thread, transfer_just), priority, stack class, worker hint, yields, "
+                "an optional wait for an earlier task, children spawned from inside; roots submitted by main and by 0-2 racing OS "
+                "threads; all 8 policies, 1-16 workers, adverse queue knobs.",
+        "required_probes": ["waited_for_other_task", "tasks"],
+    },
     "C02": {
         "quick_runs": 8000, "thorough_runs": 500000, "seed": 2000001,
         "rule": "C02 programs: 1-8 independent waiter/waker pairs over raw agent suspend/resume, condition_variable, semaphore, "
@@ -53,6 +61,13 @@ PROPS = {
                 "stop_callback construct (before/after stop) and destroy (other thread, inside own callback, inside another "
                 "callback), racing request_stop over two stop states; one sub-workload uses plain OS threads only.",
         "required_probes": ["request_stop.won", "request_stop.lost", "cb.ran_in_constructor", "cb.destroy_self", "cb.dtor_waited_for_running_callback"],
+    },
+    "C05": {
+        "quick_runs": 3000, "thorough_runs": 150000, "seed": 5000001,
+        "rule": "C05 histories: up to 3 incarnations (own worker count/policy, with or without entry function) x submit from main, "
+                "from tasks and from OS threads (also racing with wait/suspend), wait, suspend/resume (incl. redundant calls), "
+                "finalize from main or a task, stop, refused misuse calls from tasks; invalid steps are skipped by a reference state model.",
+        "required_probes": ["start", "stop", "wait", "suspend", "resume", "misuse_refused", "racing_submitter"],
     },
     "C06": {
         "quick_runs": 6000, "thorough_runs": 400000, "seed": 6000001,
